@@ -21,7 +21,8 @@ PLAN = {
     "thorough": ([("D3", 2), ("C2", 3), ("K1", 2), ("M5", 2), ("M4", 3), ("D1", 3), ("D2", 2), ("D0", 3), ("C1", 3), ("L1", 3), ("G1", 2), ("M1", 2), ("M2", 2)], 1),
 }
 _DEPTH = 0
-_KINDS = ("deladd", "reuse", "del", "insert", "meta")  # quick: one mutation of each of these kinds per program
+_KINDS = ("deladd", "reuse", "del", "insert", "insertlink", "meta")  # quick: one mutation of each of these kinds per program
+_LOADED_KINDS = ("insertlink", "deladd")  # mutations applied to the loaded copy of every program
 _INCOMPLETE: list = []
 
 
@@ -260,7 +261,7 @@ def oracle(sc, ctx, program):
     if l0 is not None:
         for sig, msg in check_hugr(l0, "loaded", few_configs=True):
             out.append((sig, f"{msg} | history=[['loaded']] | program={program}"))
-        for hist, l in mutate.loaded_histories(factory, "quick", kinds=_KINDS, pre=lambda g: mutate.observe(g, render=True)):
+        for hist, l in mutate.loaded_histories(factory, "quick", kinds=_LOADED_KINDS, pre=lambda g: mutate.observe(g, render=True)):
             if l is None:
                 continue
             for sig, msg in check_hugr(l, "loaded+" + hist[1][0], few_configs=True):
